@@ -72,7 +72,7 @@ CLAIMED = {
           "DESIGN.md 4 C18"),
   "C19": ("exploration", "deterministic simulation: Probe contract executed through every transaction path (inscription, signed, parked-then-drained, via contract) and read back",
           "Seeded histories on 6 networks (with / without Prague at low heights) execute a context-recording contract as inscription, signed, parked-then-drained and nested transaction, with arbitrary timestamps, explicit and generated hashes, idle gaps > 256 blocks, commits and reorgs; every recorded field is compared with what the harness supplied for that transaction. Sampling, not proof.",
-          "The activation heights themselves are not crossed by C19's histories (its block-hash bookkeeping is per block); C16's first two runs work above them (heights 330000 / 980000).",
+          "The first six runs of every batch are mined to a few blocks below an activation height (signet 275000, mainnet 923369 - pinned in the harness) so that their blocks straddle it.",
           "DESIGN.md 4 C19"),
   "C20": ("fault_enumeration", "fault enumeration with the real start(): all (creating, reopening) configuration pairs, tampered / missing records, foreign directories, crash points of the first-run recording",
           "All 16 x 16 ordered configuration pairs over 8 networks (incl. the empty name) x traces on/off, each of the 4 recorded keys removed or altered (numeric and non-numeric values) in the config database, populated directory without config, foreign non-empty directory, every write of the first-run recording as a crash point, and two child processes per configuration (one of which ran another configuration first) that must serve the same configuration-dependent history. Identical configuration must reopen and serve the same digest; anything else must fail to start and leave the data usable under the original configuration. Exhaustive over that finite space.",
